@@ -117,6 +117,42 @@ pub fn run(tier: Tier) -> (Stats, VioSet) {
                     }
                 }
             }
+            // surrogate arrangements directly after a mappable non-ASCII character, after an
+            // unmappable one and after ASCII (the UTF-16 readers have separate code for each)
+            {
+                let sc = crate::alphabet::enc_scalars(e);
+                let mapped = sc.iter().copied().find(|&c| c >= 0x80 && c < 0xD800 && !ref_encode_all(e, &[c], true).iter().any(|t| matches!(t, ETok::Unmappable(_))));
+                let unmapped = sc.iter().copied().find(|&c| c >= 0x80 && c < 0xD800 && ref_encode_all(e, &[c], true).iter().any(|t| matches!(t, ETok::Unmappable(_))));
+                let mut prefixes: Vec<Vec<u32>> = vec![vec![0x41], vec![0x3C], vec![0x20]];
+                if let Some(m) = mapped {
+                    prefixes.push(vec![m]);
+                    prefixes.push(vec![m, 0x2E]);
+                }
+                if let Some(u) = unmapped {
+                    prefixes.push(vec![u]);
+                }
+                let his = [0xD800u32, 0xD83D, 0xDBFF];
+                let los = [0xDC00u32, 0xDCA9, 0xDFFF];
+                for p in &prefixes {
+                    for &h in &his {
+                        for &l in &los {
+                            for tail in [vec![h, l], vec![h, h], vec![h, h, l], vec![l, h], vec![h], vec![l], vec![h, 0x41], vec![h, l, h], vec![h, l, l]] {
+                                for suffix in [vec![], vec![0x41], p.clone()] {
+                                    let mut text = p.clone();
+                                    text.extend_from_slice(&tail);
+                                    text.extend_from_slice(&suffix);
+                                    for repl in [false, true] {
+                                        let min = if repl { 14 } else { 4 };
+                                        for cap in [None, Some(min), Some(min + 1), Some(min + 2), Some(min + 3)] {
+                                            one_cap(e, Source::Utf16, repl, &text, cap, &mut stats, &mut vios);
+                                        }
+                                    }
+                                }
+                            }
+                        }
+                    }
+                }
+            }
             // ASCII run of every length 0..=100 + one non-ASCII scalar + ASCII suffix, with the
             // output limited per call (exercises the 16/32-unit accelerated copies at every offset)
             let tails: [u32; 5] = [0xE9, 0x3042, 0x1F4A9, 0x80, 0xFFFF];
